@@ -45,7 +45,7 @@ package xtype
 //@ axiom forall m *types.Map :: TypeDepth(m.Key()) < TypeDepth(m) && TypeDepth(m.Elem()) < TypeDepth(m)
 
 // TypeOf / applyTo establish the object invariant of *Type (they and inStruct are the only writers of its shape fields)
-//@ func TypeOf
+//@ func TypeOf(t)
 //@   props C03 C13
 //@   variant 2*TypeDepth(types.Unalias(t)) + 1
 //@   requires@C13 t != nil && (GoValueType(t) || dynIs[*types.Alias](t))
@@ -62,7 +62,7 @@ package xtype
 //@   ensures dynIs[*types.Map](types.Unalias(t)) ==> result.Map && !result.Named
 //@   ensures dynIs[*types.Named](types.Unalias(t)) == result.Named
 
-//@ func applyTo
+//@ func applyTo(rt, t)
 //@   props C03 C13
 //@   variant 2*TypeDepth(t)
 //@   requires rt != nil && t != nil && GoValueType(t) && NoShape(rt)
@@ -80,13 +80,13 @@ package xtype
 //@   ensures rt.Named == (old(rt.Named) || dynIs[*types.Named](t))
 
 
-//@ func Accessible
+//@ func Accessible(obj, outputPackagePath)
 //@   props C01 C03 C13
 //@   pure
 //@   requires@C13 obj != nil
 //@   ensures result == (obj.Exported() || obj.Pkg() == nil || obj.Pkg().Path() == outputPackagePath)
 
-//@ func Type.Enum
+//@ func Type.Enum(t; cfg)
 //@   props C08 C13
 //@   requires@C13 t != nil && cfg != nil
 //@   assigns t.enum
@@ -96,7 +96,7 @@ package xtype
 
 // C08: whether a named type qualifies as an enum depends on the CURRENT configuration: disabled or
 // excluded types never qualify
-//@ func loadEnum
+//@ func loadEnum(t, cfg)
 //@   props C08 C13
 //@   requires@C13 cfg != nil && t != nil
 //@   assigns nothing
@@ -106,64 +106,64 @@ package xtype
 //@   ensures t.Obj().Pkg() == nil ==> !result.OK
 
 // ---- C09: key-collection loops; the collected slice is sorted before any other use ----
-//@ func Enum.SortedMembers
+//@ func Enum.SortedMembers(e; )
 //@   props C09
 //@   maprange 1 unordered-result m
 
-//@ func UsageChecker.Unused
+//@ func UsageChecker.Unused(u; )
 //@   props C09
 //@   assigns nothing
 //@   maprange 1 unordered-result keys
 
-//@ func UsageChecker.Used
+//@ func UsageChecker.Used(u; key)
 //@   props C09
 //@   inline
 
 // ---- small constructors used by every rule ----
-//@ func VariableID
+//@ func VariableID(code)
 //@   props C03
 //@   ensures result != nil && isFresh(result) && result.Code == code && result.Variable && result.ParentPointer == nil
-//@ func OtherID
+//@ func OtherID(code)
 //@   props C03
 //@   ensures result != nil && isFresh(result) && result.Code == code && !result.Variable && result.ParentPointer == nil
-//@ func JenID.Pointer
+//@ func JenID.Pointer(j; t, namer)
 //@   props C03 C13
 //@   requires@C13 j != nil && j.Code != nil
 //@   ensures result1 != nil && result1.Code != nil && isFresh(result1)
-//@ func JenID.Deref
+//@ func JenID.Deref(j; source)
 //@   props C03 C13
 //@   requires@C13 j != nil && j.Code != nil && source != nil && source.PointerInner != nil
 //@   ensures result != nil && result.Code != nil && result.ParentPointer == j
-//@ func Type.TypeAsJen
+//@ func Type.TypeAsJen(t; )
 //@   props C01 C14
 //@   pure
 //@   ensures result == ite(t.Named, toCode(t.NamedType), toCode(t.T))
 //@   ensures result != nil
-//@ func Type.AsPointer
+//@ func Type.AsPointer(t; )
 //@   props C03 C13
 //@   requires@C13 t != nil
 //@   assigns nothing
 //@   ensures result != nil && isFresh(result) && result.Pointer && result.PointerInner != nil
 
-//@ func Type.inStruct
+//@ func Type.inStruct(t; source, field)
 //@   props C03 C13
 //@   requires@C13 t != nil && source != nil
 //@   assigns t.Func, t.FuncType
 //@   ensures result == t
 
 // ---- type rendering (C01): every helper returns a statement ----
-//@ func Type.AsPointerType
+//@ func Type.AsPointerType(t; )
 //@   props C03 C13
 //@   requires@C13 t != nil
 //@   ensures result != nil
-//@ func toCode
+//@ func toCode(t)
 //@   props C01 C18
 //@   pure
 //@   ensures result != nil
-//@ func toCodeNamed
+//@ func toCodeNamed(t)
 //@   props C01 C18
 //@   ensures result != nil
-//@ func toCodeObj
+//@ func toCodeObj(obj)
 //@   props C01 C18
 //@   ensures result != nil
 // Assumed vocabulary about jennifer (the library is not verified): Mentions(code, part) -- `part` is one
@@ -176,7 +176,7 @@ package xtype
 
 // an unnamed struct type is rendered with every declared field, in order: its type, its tag when it has
 // one, and its name unless it is embedded
-//@ func toCodeStruct
+//@ func toCodeStruct(t)
 //@   props C01 C18
 //@   ensures result != nil
 //@   loop 1 invariant len(fields) == i && i >= 0 && i <= t.NumFields()
@@ -184,12 +184,12 @@ package xtype
 //@   at@C01 call append#1 assert t.Tag(i) != "" ==> Mentions(arg1, jen.Id("`" + t.Tag(i) + "`"))
 //@   at@C01 call append#1 assert !t.Field(i).Embedded() ==> Mentions(arg1, jen.Id(t.Field(i).Name()))
 //@   at@C01 call jen.Struct#1 assert len(arg0) == t.NumFields()
-//@ func toCodeInterface
+//@ func toCodeInterface(t)
 //@   props C01 C18
 //@   ensures result != nil
 // a signature is rendered with every declared parameter and result type, in order; the last parameter
 // of a variadic signature is rendered as `...T` (not as the slice type go/types reports for it)
-//@ func toCodeSignature
+//@ func toCodeSignature(t)
 //@   props C01 C18
 //@   ensures result != nil
 //@   loop 1 invariant len(jenParams) == i && i >= 0 && i <= params.Len()
@@ -198,20 +198,20 @@ package xtype
 //@   at@C01 call append#1 assert t.Variadic() && i == params.Len()-1 && dynIs[*types.Slice](params.At(i).Type()) ==> Mentions(arg1, jen.Op("...")) && Mentions(arg1, toCode(unboxed[*types.Slice](params.At(i).Type()).Elem()))
 //@   at@C01 call append#2 assert Mentions(arg1, toCode(results.At(i).Type()))
 //@   at@C01 call jen.Params#1 assert len(arg0) == t.Params().Len()
-//@ func toCodeFunc
+//@ func toCodeFunc(t)
 //@   props C01 C18
 //@   ensures result != nil
-//@ func toChan
+//@ func toChan(t)
 //@   props C01 C18
 //@   ensures result != nil
 // C13: the panic for an unsupported kind is reachable for unsafe.Pointer (kind 18) whenever such a type has to be
 // written out: known finding F1b (uintptr was repaired; unsafe.Pointer cannot be rendered without importing unsafe,
 // which C18 forbids, and toCodeBasic has no way to report an error)
-//@ func toCodeBasic
+//@ func toCodeBasic(t)
 //@   props C01 C18 C13
 //@   ensures result != nil
 
-//@ func SignatureOf
+//@ func SignatureOf(source, target)
 //@   props C06 C13
 //@   pure
 //@   requires@C13 source != nil && target != nil
@@ -219,11 +219,11 @@ package xtype
 
 // ---- C03/C05: field lookup: a *NoMatchError is returned exactly when no candidate was found;
 // ---- several candidates on the winning tier are a different (ambiguity) error ----
-//@ func ambiguousMatchError
+//@ func ambiguousMatchError(name, ambNames)
 //@   props C03 C05
 //@   ensures result != nil && !dynIs[*NoMatchError](result)
 
-//@ func FindField
+//@ func FindField(name, ignoreCase, source, additionalFieldSources)
 //@   props C03 C05
 //@   ensures err != nil ==> result == nil
 //@   at return assert (result1 != nil && dynIs[*NoMatchError](result1)) == (len(matches) == 0)
@@ -231,14 +231,14 @@ package xtype
 //@   at return assert len(exactMatches) > 0 ==> seqEq(matches, exactMatches)
 //@   at return assert len(exactMatches) == 0 ==> seqEq(matches, ignoreCaseMatches)
 
-//@ func FindExactField
+//@ func FindExactField(source, name)
 //@   props C03 C05 C13
 //@   requires@C13 source != nil && source.Struct && source.StructType != nil && (source.Named ==> source.NamedType != nil)
 //@   ensures (err == nil) == (result != nil)
 //@   ensures@C13 err == nil ==> result.Type != nil
 
 // ---- C05: exact-name lookup scans the fields and then (for named types) the methods ----
-//@ func Type.findAllFields
+//@ func Type.findAllFields(t; path, name, ignoreCase)
 //@   props C05 C03 C13
 //@   requires@C13 t.Struct && t.StructType != nil && (t.Named ==> t.NamedType != nil)
 //@   ensures result0 == nil ==> (forall y int :: 0 <= y && y < t.StructType.NumFields() ==> t.StructType.Field(y).Name() != name)
@@ -251,13 +251,13 @@ package xtype
 //@   loop 2 invariant 0 <= y && (forall z int :: 0 <= z && z < y ==> t.NamedType.Method(z).Name() != name)
 //@   loop 2 invariant forall z int :: 0 <= z && z < t.StructType.NumFields() ==> t.StructType.Field(z).Name() != name
 
-//@ func UsageFromMap
+//@ func UsageFromMap(value)
 //@   props C13
 //@   assigns nothing
 //@   ensures result != nil && isFresh(result)
 
 // C01/C10: zero values of composite types are spelled with the full rendering of the type (type arguments included)
-//@ func ZeroValue
+//@ func ZeroValue(t)
 //@   props C01 C10
 //@   ensures dynIs[*types.Named](t) && dynIs[*types.Struct](unboxed[*types.Named](t).Underlying()) ==> result == jen.Parens(toCode(t).Block())
 //@   ensures dynIs[*types.Struct](t) || dynIs[*types.Array](t) ==> result == toCode(t).Block()
